@@ -84,6 +84,11 @@ def materialise(spec, b):
         if key not in b.objs:
             b.objs[key] = Opaque(spec[1])
         return b.objs[key]
+    if k == "e":
+        key = ("e", spec[1])
+        if key not in b.objs:
+            b.objs[key] = core.EqOpaque(spec[1])
+        return b.objs[key]
     if k == "X":
         key = ("X", spec[1])
         if key not in b.objs:
@@ -309,6 +314,8 @@ class Runtime:
         self.positions = []
         self.call_starts = 0
         self.interrupt_at = self.faults.get("interrupt_at")
+        self.interrupt_at_op = self.faults.get("interrupt_at_op")   # k counted over calls AND store operations
+        self.op_starts = 0
         self.fired = {}
         self.check_args = self.cfg.get("check_args", True)
         self.on_call_start = []
@@ -338,6 +345,10 @@ class Runtime:
             raise CutError(f"cut at {kind} {key}")
 
     def _enter(self, what):
+        self.op_starts += 1
+        if self.interrupt_at_op is not None and self.op_starts == self.interrupt_at_op:
+            self._fire("interrupt-" + what)
+            self.sim.interrupt(self.sim.client, KeyboardInterrupt())
         if what == "mtime":
             self.inflight_mtime += 1
             if self.inflight_mtime > self.max_inflight_mtime:
